@@ -113,6 +113,7 @@ type inst struct {
 	pending string
 	pwhat   string
 	probes  []string // channels whose status is requested in every state
+	stuck   bool     // the presence queue stopped being served: the broker is abandoned
 }
 
 var defaultProbes = []string{"a/", "a/b/", "a/b/c/", "b/"}
@@ -231,7 +232,11 @@ func (in *inst) Apply(i int) {
 			delete(in.watch, o.Ch)
 		}
 	}
-	in.w.env.Svc.VerifPresence().VerifBarrier()
+	if !in.w.env.PresenceBarrier() {
+		in.fail("missing-notification:presence-queue-not-served", "presence notifications queued by "+o.String()+" were not published within 120 s (the queue is not being served)")
+		in.stuck = true
+		return
+	}
 	// W's inbox must hold exactly the expected notifications
 	var got []string
 	for _, p := range in.cl[0].Drain() {
@@ -366,8 +371,7 @@ func (in *inst) Close() {
 			in.cl[i].Abort()
 		}
 	}
-	in.w.env.Svc.VerifPresence().VerifBarrier()
-	if in.w.env.Svc.VerifTrie().Count() != 0 {
+	if in.stuck || !in.w.env.PresenceBarrier() || in.w.env.Svc.VerifTrie().Count() != 0 {
 		in.w.env.Close()
 		*in.w = *newWorkerEnv()
 	}
